@@ -13,9 +13,12 @@ if ! git apply $SRC/patch$K.diff 2>/dev/null; then res="patch-does-not-apply"; f
 if [ "$res" = ok ]; then
   suite=$(/verif/tools/baseline.sh $WT | head -1)
   echo "$suite" | grep -q "baseline_missing=0" || res="suite-fails"
-  (cd $SRC && PYTHONPATH=$WT MPLBACKEND=Agg timeout 600 /venv/bin/python demo$K.py >/dev/null 2>&1); with=$?
+  # demos may assert that astrodendro is imported from the agent's own worktree: point them at this one
+  DEMO=$(mktemp /var/tmp/verif-demo-XXXXXX.py); sed "s#/tmp/mut-$ID#$WT#g" $SRC/demo$K.py > $DEMO
+  (cd $SRC && PYTHONPATH=$WT MPLBACKEND=Agg timeout 600 /venv/bin/python $DEMO >/dev/null 2>&1); with=$?
   git checkout -q -- .
-  (cd $SRC && PYTHONPATH=$WT MPLBACKEND=Agg timeout 600 /venv/bin/python demo$K.py >/dev/null 2>&1); without=$?
+  (cd $SRC && PYTHONPATH=$WT MPLBACKEND=Agg timeout 600 /venv/bin/python $DEMO >/dev/null 2>&1); without=$?
+  rm -f $DEMO
   [ $with -ne 0 ] || res="demo-passes-with-change"
   [ $without -eq 0 ] || res="demo-fails-without-change"
 fi
